@@ -182,3 +182,52 @@ PROPS["C09"] = dict(
         assumptions=_E1_ASSUME + ["byte identity is checked by comparing the whole file content before and after the ReadOnly session"],
     ),
 )
+
+PROPS["C04"] = dict(
+    level="model_checking",
+    budget_s=dict(quick=150, thorough=1500),
+    parts=[dict(name="graphs", bin="C04", flavour="plain")],
+    manifest=dict(
+        engine="E1", design_ref="5 / C04",
+        technique="exhaustive enumeration of link subsets (size <= k of a 31-link menu) x victim x delete mode x reopen variant on the real library; reference model = structured observation before the delete with the victim's subtree and all links to it removed",
+        text="Base graph with every entity kind (2 blocks, 3 arrays, frame, 2 tags, multi-tag, group, source tree s1>(s2>s3, s2b>s3b), s5, section tree, property). "
+             "Every subset of at most k links (k=2 quick, 3 thorough; plus the all-links graph) out of 31 link options of every supported kind, with reopen "
+             "none / after all links / after the first link; then each of 22 victims is deleted by name, by id and by handle through its owner. The "
+             "observation after the delete (same session and after reopen) must equal the model; lookups by the old name/id must find nothing; old "
+             "handles of the victim (and of all nodes of a deleted source/section subtree) must report invalid or throw.",
+        note="'Does not expose' accepts none or an exception from a holder whose target is gone. Handles to entities that merely lived inside the victim "
+             "(arrays of a deleted block, properties of a deleted section) are not constrained by the statement."),
+    evidence=dict(
+        keys=dict(states=("distinct", "scenarios"), transitions=("count", "deletions"), traces_validated_against_impl=("count", "traces"),
+                  evaluations=("count", "observations_compared"), distinct_nontrivial=("distinct", "outcomes")),
+        rule="scenario = (link subset, reopen variant, victim, delete mode); states = distinct scenarios executed; distinct_nontrivial = distinct (victim kind, mode, "
+             "kinds of incoming links that pointed at the removed ids, verdict) tuples.",
+        bound=dict(quick="k<=2 (497 graphs + all-links), one reopen variant per graph (rotating), 22 victims x 3 modes", thorough="k<=3 (4992 graphs), all 3 reopen variants"),
+        assumptions=_E1_ASSUME,
+    ),
+)
+
+PROPS["C14"] = dict(
+    level="model_checking",
+    budget_s=dict(quick=120, thorough=1500),
+    parts=[dict(name="properties", bin="C14", flavour="plain")],
+    manifest=dict(
+        engine="E1", design_ref="5 / C14",
+        technique="exhaustive DFS over operation sequences on one Property per (value type x createProperty overload), replayed on fresh files, against a typed-value reference model",
+        text="For each of 7 value types and 3 creation overloads every sequence up to depth 3 (quick) / 4 (thorough) over 19 operations (assign own-type vectors of "
+             "length 0/1/2/3/64 with extremes, NaN payloads, +-inf, -0.0, empty/300-char/UTF-8 strings; wrong-type and mixed vectors; deleteValues; values(none); "
+             "unit set/de-blanked/other/empty/none; uncertainty; definition; REOPEN) is replayed on a fresh file; after the last step values (type and bit pattern), "
+             "valueCount, dataType, unit, uncertainty and definition are compared with the model through the handle kept since creation, a fresh handle and after "
+             "close+reopen. Rejected operations must throw and leave a bitwise identical observation.",
+        note="A property created from a DataType has an unspecified value list until the first assignment (the library writes 8 defaults). unit('') may either throw or "
+             "remove the unit (the repository's suite pins the latter)."),
+    evidence=dict(
+        keys=dict(states=("distinct", "states"), transitions=("count", "transitions"), traces_validated_against_impl=("count", "traces"),
+                  evaluations=("count", "getter_calls"), distinct_nontrivial=("distinct", "outcomes")),
+        rule="DFS with replay on a fresh file per (value type of 7) x (createProperty overload of 3): part A all sequences up to depth D over 19 letters; part B all sequences up to "
+             "depth D-1 containing one of 5 extended letters. Each prefix is a trace. states = distinct (type, model value list or 'unspecified', unit, uncertainty, definition, "
+             "fresh-session flag); distinct_nontrivial = distinct (type, creation overload, last operation, value list defined/unspecified, accepted or exception class) tuples.",
+        bound=dict(quick="D=3", thorough="D=4"),
+        assumptions=_E1_ASSUME,
+    ),
+)
